@@ -370,6 +370,19 @@ func init() {
 					c3.dd = strings.Repeat(string(padB), 1+r.Intn(3))
 					emit(L(A("trk"), I(k), p, L(c3.op(), op("get"), op("filter"), op("str"), op("pack"))))
 				}
+				// the declared length at its boundary: tracks of exactly the maximum, one more and one less (C08)
+				for _, target := range []int{maxLen - 1, maxLen, maxLen + 1, maxLen + 2} {
+					cb := genTrackComps(r, k, true)
+					fb := trackField(k, p)
+					setComps(fb, cb)
+					sb, _ := fb.String()
+					if d := target - len(sb); d > 0 {
+						cb.dd += string(r.From([]byte("123456789"), d))
+					} else if d < 0 && len(cb.dd) > -d {
+						cb.dd = cb.dd[:len(cb.dd)+d]
+					}
+					emit(L(A("trk"), I(k), p, L(cb.op(), op("pack"), op("str"))))
+				}
 				s, _ := f.String()
 				emit(L(A("trk"), I(k), p, L(op("setbytes", X([]byte(s))), op("get"), op("str"))))
 				emit(L(A("trk"), I(k), p, L(c2.op(), op("setbytes", X(mutate(r, []byte(s)))), op("get"), op("str"))))
@@ -391,6 +404,33 @@ func init() {
 		}
 		return nil
 	}
+
+	// C08: a track field packs only what its declared length admits: the rendered track (before any padding the packer
+	// adds) is at most the maximum of a variable-length field and exactly the length of a fixed one
+	regCheck("C08", "trk", func(a []*Sx) (bool, []Finding) {
+		k := a[0].Int()
+		c := firstComps(a[2].List)
+		if c == nil || a[2].List[0].Head() != "setc" {
+			return false, nil
+		}
+		f := trackField(k, a[1])
+		setComps(f, *c)
+		s, serr := f.String()
+		if serr != nil {
+			return false, nil
+		}
+		_, err := f.Pack()
+		sa := a[1].Args()
+		pref, L, padK := sa[2].Atom, sa[3].Int(), sa[4].Atom
+		n := len(s)
+		if padK != "N" && sa[6].Atom != "T2" && n < L {
+			n = L
+		}
+		if err == nil && lengthMustFail(pref, L, n) {
+			return true, []Finding{{"c08-track-pack-accepts:" + sa[6].Atom, fmt.Sprintf("Pack accepts a track of %d characters for a field declared %s with length %d", n, pref, L)}}
+		}
+		return true, nil
+	})
 
 	// C01: Pack then Unpack reproduces an in-domain track, consumes exactly its bytes, re-packs identically
 	regCheck("C01", "trk", func(a []*Sx) (bool, []Finding) {
